@@ -191,6 +191,56 @@ pub fn s_symver(enc: Enc) -> Image {
     image_from_bytes(&format!("s-symver/{}", enc.name()), b.bytes, None, &[".dynsym", ".gnu"], 64)
 }
 
+/// An object the gABI frowns upon but on which both parsers must still agree (and, under faults,
+/// fail cleanly): two SHT_SYMTAB sections with different contents, a PT_DYNAMIC segment that covers
+/// only the first entry of .dynamic, an empty .dynsym that starts at the same file offset as its
+/// string table, and an empty .gnu.version_d at the offset of .gnu.version_r.
+pub fn s_odd(enc: Enc) -> Image {
+    let symsz = layout(Kind::Sym, enc.class).size as u64;
+    let dynsz = layout(Kind::Dyn, enc.class).size as u64;
+    let mk = |names: &[&[u8]]| {
+        let names: Vec<Vec<u8>> = names.iter().map(|n| n.to_vec()).collect();
+        let (strtab, offs) = refmodel::hashes::build_strtab(&names);
+        (refmodel::hashes::build_symtab(enc, &offs), strtab)
+    };
+    let (sym_a, str_a) = mk(&[b"", b"main", b"x"]);
+    let (sym_b, str_b) = mk(&[b"", b"other_table_symbol"]);
+    let mut dynamic = Vec::new();
+    dynamic.extend_from_slice(&encode(Kind::Dyn, enc, &[1, 1], 0));
+    dynamic.extend_from_slice(&encode(Kind::Dyn, enc, &[14, 7], 0));
+    dynamic.extend_from_slice(&encode(Kind::Dyn, enc, &[0, 0], 0));
+    let mut strs = refmodel::symver::StrTab::new();
+    let need = refmodel::symver::Need { file: b"libq.so".to_vec(), auxes: vec![refmodel::symver::Aux { name: b"Q_1".to_vec(), hash: 0x1234, flags: 0, other: 2 }] };
+    let verneed = refmodel::symver::build_verneed(enc, &[need], refmodel::symver::VerLayout::Contiguous, &mut strs);
+    let versym = refmodel::symver::build_versym(enc.order, &[0, 2]);
+    let make = |dynstr_off: u64, verneed_off: u64| {
+        let mut spec = Spec::new(enc, TableOrder::TablesFirst);
+        spec.secs = vec![
+            Sec::new(b".symtab", SHT_SYMTAB, sym_a.clone()).link(2).entsize(symsz),
+            Sec::new(b".strtab", SHT_STRTAB, str_a.clone()),
+            Sec::new(b".symtab.2", SHT_SYMTAB, sym_b.clone()).link(4).entsize(symsz),
+            Sec::new(b".strtab.2", SHT_STRTAB, str_b.clone()),
+            Sec::new(b".dynamic", SHT_DYNAMIC, dynamic.clone()).link(7).entsize(dynsz),
+            Sec::new(b".dynsym", SHT_DYNSYM, Vec::new()).link(7).entsize(symsz).place(Place::Claim { offset: dynstr_off, size: 0 }),
+            Sec::new(b".dynstr", SHT_STRTAB, strs.bytes.clone()),
+            Sec::new(b".gnu.version", SHT_GNU_VERSYM, versym.clone()).link(6).entsize(2),
+            Sec::new(b".gnu.version_r", SHT_GNU_VERNEED, verneed.clone()).link(7).info(1),
+            Sec::new(b".gnu.version_d", SHT_GNU_VERDEF, Vec::new()).link(7).info(0).place(Place::Claim { offset: verneed_off, size: 0 }),
+        ];
+        spec.segs = vec![Seg { p_type: PT_DYNAMIC, flags: 6, vaddr: 0, paddr: 0, align: 8, memsz_extra: 0, target: SegTarget::Range { offset: 0, filesz: dynsz } }];
+        spec
+    };
+    let b0 = build(&make(0, 0));
+    let (dynstr_off, _) = b0.sec_range(7);
+    let (verneed_off, _) = b0.sec_range(9);
+    let (dynamic_off, _) = b0.sec_range(5);
+    let mut spec = make(dynstr_off, verneed_off);
+    spec.segs[0].target = SegTarget::Range { offset: dynamic_off, filesz: dynsz };
+    let b = build(&spec);
+    assert_eq!(b.sec_range(7).0, dynstr_off, "layout must not move when the claims are filled in");
+    image_from_bytes(&format!("s-odd/{}", enc.name()), b.bytes, None, &[".dynsym", ".symtab.2"], 64)
+}
+
 pub fn s_phdrs(enc: Enc) -> Image {
     let sk = small_shapes().into_iter().find(|s| s.name == format!("phdrs-only/{}", enc.name())).unwrap();
     let mut img = image_from_bytes(&format!("s-phdrs-only/{}", enc.name()), sk.bytes, None, &[".x"], 64);
@@ -839,6 +889,8 @@ pub fn stream_cases(tier: Tier, _which: Which) -> Vec<StreamCase> {
                 v.push(StreamCase { make: s_phdrs, enc: *e, dev: 1, max_depth: None, label: "s_phdrs_dev1_fixpoint" });
                 v.push(StreamCase { make: s_symver, enc: *e, dev: 0, max_depth: Some(4), label: "s_symver_dev0_depth4" });
                 v.push(StreamCase { make: s_symver, enc: *e, dev: 1, max_depth: Some(1), label: "s_symver_dev1_depth1" });
+                v.push(StreamCase { make: s_odd, enc: *e, dev: 0, max_depth: Some(3), label: "s_odd_dev0_depth3" });
+                v.push(StreamCase { make: s_odd, enc: *e, dev: 1, max_depth: Some(1), label: "s_odd_dev1_depth1" });
             }
             Tier::Thorough => {
                 v.push(StreamCase { make: s_core, enc: *e, dev: 1, max_depth: None, label: "s_core_dev1_fixpoint" });
@@ -848,6 +900,8 @@ pub fn stream_cases(tier: Tier, _which: Which) -> Vec<StreamCase> {
                 v.push(StreamCase { make: s_phdrs, enc: *e, dev: 2, max_depth: None, label: "s_phdrs_dev2_fixpoint" });
                 v.push(StreamCase { make: s_symver, enc: *e, dev: 0, max_depth: None, label: "s_symver_dev0_fixpoint" });
                 v.push(StreamCase { make: s_symver, enc: *e, dev: 1, max_depth: Some(3), label: "s_symver_dev1_depth3" });
+                v.push(StreamCase { make: s_odd, enc: *e, dev: 0, max_depth: None, label: "s_odd_dev0_fixpoint" });
+                v.push(StreamCase { make: s_odd, enc: *e, dev: 1, max_depth: Some(3), label: "s_odd_dev1_depth3" });
             }
         }
     }
